@@ -35,13 +35,14 @@ hooks, exec failures, deaths at every kernel-call boundary, reloads, `kill` / `s
   neither to the pid nor to former children.
 
 * `C03_run_sigkill_never_first_signal_in_step`, `C03_run_sigkill_never_first_signal` — **the log-level
-  form**: in every step that is not a `signal` / `kill` / `set` / `add` request (after any history), and along
+  form**: in every step whose stimulus does not itself bring signal 9 in (`OpSafe`: everything but a `signal` /
+  `kill` request for signal 9 and a `set` / `add` request with `stop_signal: 9`; after any history), and along
   every run without such requests, every SIGKILL entry `sig p 9 st ""` of the log is preceded by an
   earlier signal entry for `p` — the daemon escalates, it never opens with SIGKILL —, the exemptions being
   a watcher with `stop_signal = 9`, a consulted `before_signal` hook, and pids that are not children of the
   daemon (a worker's own children); for workers — pids with a `Process` object, which are children of the
   daemon for ever (`C03_run_workers_are_daemon_children`) — the last exemption drops out
-  (`C03_run_sigkill_to_worker_never_first_in_step`, `C03_run_sigkill_to_worker_never_first`).  The four requests are exempt because they may ask for signal 9
+  (`C03_run_sigkill_to_worker_never_first_in_step`, `C03_run_sigkill_to_worker_never_first`).  Those requests are exempt because they ask for signal 9
   themselves (`C03_counterexample_requested_sigkill_is_first`).
 
 Which signals are meant: the escalation is the call `sendSignalProcess u p 9 true` in `killFinish`
@@ -278,9 +279,9 @@ theorem run_si_j {J : JMode} (s : State) (ops : List Op) (hsafe : ∀ op ∈ ops
     exact ih _ (fun op hop => hsafe op (List.mem_cons_of_mem _ hop)) (stepM_si_j o (hsafe o List.mem_cons_self) s h)
 
 /-- **SIGKILL is never the first signal — one step, after any history**: let `s` be any reachable state
-    (reached through any requests whatsoever) and `op` any stimulus other than a `signal`, `kill`, `set`
-    or `add` request (a timer firing, the periodic check, a death, `start` / `stop` / `restart` / `reload` /
-    `incr` / `decr` / `rm` / `quit` requests, termination signals, …).  Then every SIGKILL the daemon
+    (reached through any requests whatsoever) and `op` any stimulus that does not itself bring signal 9 in
+    (`OpSafe`: everything — a timer firing, the periodic check, a death, any request, termination signals — but
+    a `signal` / `kill` request whose `signum` is 9 and a `set` / `add` request with the option `stop_signal: 9`).  Then every SIGKILL the daemon
     sends through `Watcher.send_signal` during that step — an entry `sig p 9 st ""` of the log at a
     position ≥ the length of the log of `s` — is preceded in the log by an earlier signal entry for the
     same pid (the stop signal of the kill loop that now escalates), unless: some watcher's `stop_signal`
@@ -300,8 +301,8 @@ theorem C03_run_sigkill_never_first_signal_in_step (cfg : List Watcher) (behavs 
   have h1 := stepM_si_j op hop _ h0.enter
   exact (h1.just _ rfl).log pre post p st hl hn
 
-/-- **SIGKILL is never the first signal — whole runs**: along every run none of whose stimuli is a
-    `signal`, `kill`, `set` or `add` request, from a configuration in which no watcher has `stop_signal`
+/-- **SIGKILL is never the first signal — whole runs**: along every run none of whose stimuli brings signal 9
+    in itself (`OpSafe`: no `signal` / `kill` request for signal 9, no `set` / `add` request with `stop_signal: 9`), from a configuration in which no watcher has `stop_signal`
     9 and no `before_signal` hook is ever consulted, every SIGKILL the daemon sends to one of its own
     children through `Watcher.send_signal` is preceded in the log by an earlier signal entry for that
     pid: the daemon escalates, it never opens with SIGKILL.  (Stated with the three exemptions as
@@ -334,7 +335,7 @@ theorem C03_run_workers_are_daemon_children (cfg : List Watcher) (behavs : List 
   exact (C03_run_signal_invariant cfg behavs warm hcfg ops).wpar o ho
 
 /-- … so for a **worker** (a pid with a `Process` object) the log-level statements read without the last
-    alternative: in a step that is not a `signal` / `kill` / `set` / `add` request, a SIGKILL to a worker
+    alternative: in a step whose stimulus does not itself bring signal 9 in, a SIGKILL to a worker
     is preceded in the log by an earlier signal to it, unless some watcher's `stop_signal` is 9 or a
     `before_signal` hook has been consulted. -/
 theorem C03_run_sigkill_to_worker_never_first_in_step (cfg : List Watcher) (behavs : List Behav) (warm : Nat)
@@ -358,7 +359,7 @@ theorem C03_run_sigkill_to_worker_never_first_in_step (cfg : List Watcher) (beha
     rw [this] at hd
     exact hd.not_ndc h
 
-/-- the same along whole runs without `signal` / `kill` / `set` / `add` requests -/
+/-- the same along whole runs without a request that brings signal 9 in -/
 theorem C03_run_sigkill_to_worker_never_first (cfg : List Watcher) (behavs : List Behav) (warm : Nat)
     (hcfg : ∀ w ∈ cfg, w.pids = []) (ops : List Op) (hsafe : ∀ op ∈ ops, OpSafe op)
     (pre post : List Obs) (p : Nat) (st : PState)
@@ -429,7 +430,7 @@ theorem C03_counterexample_vetoed_stop_signal_then_sigkill :
   unfold HookCalled
   decide +kernel
 
-/-- the stimuli of the run above are all safe (none is a `signal` / `kill` / `set` / `add` request) -/
+/-- the stimuli of the run above are all safe (none brings signal 9 in) -/
 theorem stop_safe (name : String) (waiting : Bool) : msgSafe (some (stopReq name waiting)) := by
   intro j nm hj hc
   simp only [Option.some.injEq] at hj
@@ -438,7 +439,30 @@ theorem stop_safe (name : String) (waiting : Bool) : msgSafe (some (stopReq name
     simp [stopReq, JVal.get?, List.lookup] at hc
     exact hc.symm
   subst this
-  unfold cmdSafe
+  refine ⟨fun h => ?_, fun h => ?_, fun h => ?_, fun h => ?_⟩ <;> exact absurd h (by decide +kernel)
+
+/-- a `kill` request that names signal 15 (and a grace period) is safe too -/
+def kill15Req : JVal :=
+  .obj [("command", .str "kill"), ("properties", .obj [("name", .str "a"), ("signum", .int 15), ("graceful_timeout", .int 0)])]
+
+example : OpSafe (.req "c" (some kill15Req)) := by
+  intro j nm hj hc
+  simp only [Option.some.injEq] at hj
+  subst hj
+  have : nm = "kill" := by
+    simp [kill15Req, JVal.get?, List.lookup] at hc
+    exact hc.symm
+  subst this
+  refine ⟨fun h => ?_, fun _ => ?_, fun h => ?_, fun h => ?_⟩
+  · exact absurd h (by decide +kernel)
+  · decide +kernel
+  · exact absurd h (by decide +kernel)
+  · exact absurd h (by decide +kernel)
+
+-- `kill` with graceful_timeout 0: stop signal 15 and, in the same step, the SIGKILL — in this order
+example : (run (initState c03Cfg [{ term := none }] 0) [.start, .wake, .wake, .req "c" (some kill15Req)]).log.map Obs.isNine =
+    [false, false, false, false, false, true, false, false, false] ∧
+    hasSig ((run (initState c03Cfg [{ term := none }] 0) [.start, .wake, .wake, .req "c" (some kill15Req)]).log.take 5) 100 15 = true := by
   decide +kernel
 
 example : ∀ op ∈ c03Pre ++ [.wake, .wake], OpSafe op := by
@@ -457,7 +481,7 @@ example : (c03Run [.wake, .wake]).log.map Obs.isNine =
 def sig9Req : JVal :=
   .obj [("command", .str "signal"), ("properties", .obj [("name", .str "a"), ("signum", .int 9)])]
 
-/-- **why `signal` / `kill` / `set` / `add` requests are exempt**: they may ask for signal 9 themselves.  After
+/-- **why requests that name signal 9 are exempt**: they ask for it themselves.  After
     `signal a 9` the log has a SIGKILL for pid 100 that no signal precedes — sent because it was asked
     for, not as an escalation. -/
 theorem C03_counterexample_requested_sigkill_is_first :
